@@ -122,7 +122,88 @@ def matrices():
         _plain("g3plain", [[0, 1, 2], [-1, 0, 1], [1, 1, 1]]),
         _plain("g4comp", [[0, 0, 0, -1], [1, 0, 0, 2], [0, 1, 0, 0], [0, 0, 1, 1]]),
     ]
-    return M
+    return M + exact_matrices()
+
+
+def _exact(e, vs):
+    """Catalog entry of the exact-breakdown family: only the listed start vectors are used; TLC certifies for each
+    (A, v) that the whole Arnoldi process is exact in binary floating point (Krylov!ExactArnoldiOK)."""
+    e = dict(e)
+    e["exact"] = True
+    e["vs"] = [(nm, [_gi(x) for x in v]) for nm, v in vs]
+    return e
+
+
+def _unit(n, k, c=1):
+    return [c if i == k else 0 for i in range(n)]
+
+
+def _perm(p, scale=None):
+    """A e_j = scale[j] * e_p[j]"""
+    n = len(p)
+    A = [[0] * n for _ in range(n)]
+    for j, i in enumerate(p):
+        A[i][j] = 1 if scale is None else scale[j]
+    return A
+
+
+def _blocks(*bs):
+    n = sum(len(b) for b in bs)
+    A = [[0] * n for _ in range(n)]
+    o = 0
+    for b in bs:
+        for i, row in enumerate(b):
+            for j, x in enumerate(row):
+                A[o + i][o + j] = x
+        o += len(b)
+    return A
+
+
+def exact_matrices():
+    """Operators and start vectors with small integer entries whose Arnoldi / Lanczos process is exact in floating
+    point (every basis vector has dyadic entries, every norm is the square root of a perfect square): the breakdown
+    residual is the number 0.0, so tol = 0 stops exactly at KDim.  1x1, permutations (coordinate and constant
+    starts), scaled / complex monomial matrices, diagonal (eigenvector starts, +-1 spectrum with constant start),
+    block diagonal (start supported on one block), identity, nilpotent shifts."""
+    I2 = [[1, 0], [0, 1]]
+    I4 = [[1 if i == j else 0 for j in range(4)] for i in range(4)]
+    I5 = [[1 if i == j else 0 for j in range(5)] for i in range(5)]
+    F4 = [[1, 1, 1, 1], [1, 1j, -1, -1j], [1, -1, 1, -1], [1, -1j, -1, 1j]]
+    c3 = [[0, 0, 1], [1, 0, 0], [0, 1, 0]]
+    sw = [[0, 1], [1, 0]]
+    X = [
+        _exact(_entry("x1r", [[1]], [3]), [("s2", [2]), ("m1", [-1])]),
+        _exact(_entry("x1c", [[1]], [1 + 2j]), [("s2i", [2j]), ("s1", [1])]),
+        _exact(_entry("xswap2", [[1, 1], [1, -1]], [1, -1]), [("e1", [1, 0]), ("m2e2", [0, -2])]),
+        _exact(_entry("xrot2", [[1, 1], [-1j, 1j]], [1j, -1j]), [("e1", [1, 0]), ("2e2", [0, 2])]),
+        _exact(_plain("xperm3", c3), [("e1", [1, 0, 0]), ("m2e3", [0, 0, -2])]),
+        _exact(_entry("xperm4", F4, [1, 1j, -1, -1j]),
+               [("e1", [1, 0, 0, 0]), ("ones", [1, 1, 1, 1]), ("pm", [1, 1, -1, -1]), ("alt", [1, -1, 1, -1]),
+                ("4e3", [0, 0, 4, 0])]),
+        _exact(_plain("xperm5", _blocks(c3, I2)),
+               [("2e1", [2, 0, 0, 0, 0]), ("e4", [0, 0, 0, 1, 0]), ("ones4", [1, 1, 1, 1, 0]), ("e3", [0, 0, 1, 0, 0])]),
+        _exact(_plain("xperm6", _blocks(sw, c3, [[1]])),
+               [("e1", _unit(6, 0)), ("e3", _unit(6, 2)), ("e6", _unit(6, 5, -2)), ("ones4", [1, 1, 1, 1, 0, 0])]),
+        _exact(_plain("xmono3", _perm([1, 2, 0], [2, 1, -2])), [("e1", [1, 0, 0]), ("4e2", [0, 4, 0])]),
+        _exact(_plain("xmono3c", _perm([1, 2, 0], [1, -1j, 1j])), [("e1", [1, 0, 0]), ("ie3", [0, 0, 1j])]),
+        _exact(_entry("xdiag5", I5, [1, 2, 3, 4, 5]), [("e3", _unit(5, 2)), ("m2e5", _unit(5, 4, -2)), ("e1", _unit(5, 0))]),
+        _exact(_entry("xdiag4s", I4, [1, -1, 1, -1]),
+               [("ones", [1, 1, 1, 1]), ("e2", [0, 1, 0, 0]), ("pm", [1, 1, -1, -1])]),
+        _exact(_entry("xdiag3z", [[1, 0, 0], [0, 1, 0], [0, 0, 1]], [0, 2, 3]), [("e1", [1, 0, 0]), ("e2", [0, 2, 0])]),
+        _exact(_plain("xblk4", _blocks([[2, 1], [1, 2]], [[3, 1], [0, 3]])),
+               [("e1", _unit(4, 0)), ("e4", _unit(4, 3)), ("e3", _unit(4, 2)), ("m2e2", _unit(4, 1, -2))]),
+        _exact(_entry("xblk4h", [[1, 1, 0, 0], [1, -1, 0, 0], [0, 0, 1, 1], [0, 0, 1, -1]], [3, 1, 2, -2]),
+               [("e1", _unit(4, 0)), ("e3", _unit(4, 2)), ("2e4", _unit(4, 3, 2))]),
+        _exact(_plain("xblk4c", _blocks([[0, 1j], [-1j, 0]], [[2, 0], [0, 3]])),
+               [("e1", _unit(4, 0)), ("e3", _unit(4, 2)), ("ie2", _unit(4, 1, 1j))]),
+        _exact(_entry("xid4", I4, [1, 1, 1, 1]), [("ones", [1, 1, 1, 1]), ("e2", [0, 1, 0, 0]), ("alt", [1, -1, 1, -1])]),
+        _exact(_entry("xid3s", [[1, 0, 0], [0, 1, 0], [0, 0, 1]], [2, 2, 2]), [("e1", [1, 0, 0]), ("m2e3", [0, 0, -2])]),
+        _exact(_plain("xnil4", _perm([1, 2, 3, 0], [1, 1, 1, 0])),
+               [("e1", _unit(4, 0)), ("e3", _unit(4, 2)), ("e4", _unit(4, 3)), ("2e2", _unit(4, 1, 2))]),
+        _exact(_plain("xnil5u", _perm([4, 0, 1, 2, 3], [0, 1, 1, 1, 1])),
+               [("e5", _unit(5, 4)), ("e2", _unit(5, 1)), ("e3", _unit(5, 2))]),
+    ]
+    return X
 
 
 def start_vectors(e):
@@ -130,6 +211,8 @@ def start_vectors(e):
     n = len(e["A"])
     V = e["V"]
     cplx = any(x[1] != 0 for row in e["A"] for x in row)
+    if e.get("exact"):
+        return [(nm, v, not cplx and all(x[1] == 0 for x in v)) for nm, v in e["vs"]]
     out = [("e1", [(1, 0)] + [(0, 0)] * (n - 1)),
            ("gen", [((1, 2, -1, 3)[i], 0) for i in range(n)])]
     if n > 1:
@@ -170,6 +253,7 @@ def cases():
             c["name"] = f"{e['name']}:{nm}"
             c["v"] = v
             c["real"] = all(x[1] == 0 for row in e["A"] for x in row) and all(x[1] == 0 for x in v)
+            c["exact"] = bool(e.get("exact"))
             out.append(c)
     return out
 
@@ -187,7 +271,8 @@ def render_catalog(cs):
         v = "<<" + ", ".join(f"<<{x[0]}, {x[1]}>>" for x in c["v"]) + ">>"
         recs.append(f'[name |-> "{c["name"]}", A |-> FromPairs({_pairs(c["A"])}), '
                     f'herm |-> {"TRUE" if c["herm"] else "FALSE"}, hasEig |-> {"TRUE" if c["hasEig"] else "FALSE"}, '
-                    f'V |-> FromPairs({_pairs(c["V"])}), lam |-> {lam}, sup |-> {sup}, v |-> {v}]')
+                    f'V |-> FromPairs({_pairs(c["V"])}), lam |-> {lam}, sup |-> {sup}, v |-> {v}, '
+                    f'exact |-> {"TRUE" if c.get("exact") else "FALSE"}]')
         assert n >= 1
     return ("---- MODULE KrylovCatalog ----\n\\* generated by harness/krylovfam.py\nEXTENDS Mat\nKC_Cases == <<\n  "
             + ",\n  ".join(recs) + "\n>>\n====\n")
